@@ -595,7 +595,7 @@ class SelectorThread:
                 # https://github.com/python/cpython/blob/v3.8.0/Lib/selectors.py#L312-L317
                 rs, ws, xs = select.select(to_read, to_write, to_write)
                 ws = ws + xs
-            except OSError as e:
+            except (OSError, ValueError) as e:
                 # After remove_reader or remove_writer is called, the file
                 # descriptor may subsequently be closed on the event loop
                 # thread. It's possible that this select thread hasn't
@@ -607,7 +607,14 @@ class SelectorThread:
                 # event loop and we'll get the updated set of file
                 # descriptors on the next iteration. Otherwise, raise the
                 # original error.
-                if e.errno == getattr(errno, "WSAENOTSOCK", errno.EBADF):
+                #
+                # If the reader or writer was registered as a socket (or
+                # other file-like) object rather than a raw descriptor,
+                # closing it makes fileno() return -1 and select raises
+                # ValueError instead of EBADF; treat that the same way.
+                if isinstance(e, ValueError) or e.errno == getattr(
+                    errno, "WSAENOTSOCK", errno.EBADF
+                ):
                     rs, _, _ = select.select([self._waker_r.fileno()], [], [], 0)
                     if rs:
                         ws = []
